@@ -1,4 +1,4 @@
-import Juniper.Proofs.Watch
+import Juniper.Proofs.WatchLive
 /-!
 # C18 — Watchable / Future / Lazy / xsync.Map (property theorems)
 
@@ -162,10 +162,17 @@ theorem chan_closed_iff_later_set {s : WState} {j c lin : Nat} (hr : WReach WCfg
         · simp [wstep, hi, WCfg.std, hcell, hcl']
         · simp [cellAt, setSetter, hlt]
 
-/-- **… so an observer loop always ends up seeing the final value**: when every `Set` call has
-returned (none is between its `Swap` and its `close`) and the observer waits on a channel that is
-not closed, the value it holds is the last value `Set`. (If the channel is closed the observer is
-not blocked: it calls `Value` again.) -/
+/-- **… so an observer loop always ends up seeing the final value** — the statement is split into
+four theorems: (1) `observer_sees_final` (this one, correctness at quiescence): when every `Set`
+call has returned (none is between its `Swap` and its `close`) and the observer waits on a channel
+that is not closed, the value it holds is the last value `Set`; (2) `observer_progress`: if the
+channel is closed the observer's next `Value` returns a strictly later cell, and the measure is
+bounded by the number of `Set` calls, so the loop `for { v, ch := w.Value(); …; <-ch }` performs at
+most (number of `Set`s) + 1 iterations; (3) `value_never_blocked`: that next `Value` can always
+complete, on its own steps alone, and then returns the latest value with an open channel;
+(4) `watchable_never_panics`: neither `Set` nor `Value` ever panics. What is NOT a theorem: a
+fairness assumption ("the observer goroutine is eventually scheduled") — with it, (1)–(4) give that
+every run of the loop ends up parked on the final value. -/
 theorem observer_sees_final {s : WState} {j c lin : Nat} (hr : WReach WCfg.gen s)
     (hj : s.readers[j]? = some (.done c lin)) (hopen : (cellAt s c).closed = false)
     (hquiet : ∀ (i : Nat) (v : Int) (old : Option Nat), s.setters[i]? ≠ some (v, .swapped old)) :
@@ -180,6 +187,80 @@ theorem observer_sees_final {s : WState} {j c lin : Nat} (hr : WReach WCfg.gen s
     · omega
   subst this
   rw [hval, List.take_length]
+
+/-- non-vacuity: both `Set`s have returned; observer 0 is parked on the open channel of the final
+cell, observer 1 still holds the first cell, whose channel is closed -/
+example : ∃ s, WReach WCfg.gen s ∧ s.readers[0]? = some (.done 1 2) ∧ (cellAt s 1).closed = false ∧
+    s.setters = [(7, .done), (8, .done)] ∧ (cellAt s 1).val = some 8 ∧
+    s.readers[1]? = some (.done 0 1) ∧ (cellAt s 0).closed = true :=
+  ⟨_, .step (.load 0) (.step (.close 1) (.step (.swap 1) (.step (.load 1) (.step (.close 0) (.step (.swap 0)
+    (.init [7, 8] 2) rfl) rfl) rfl) rfl) rfl) rfl, by decide, by decide, by decide, by decide, by decide, by decide⟩
+
+/-- **Neither `Set` nor `Value` ever panics** (all interleavings, any number of concurrent `Set` and
+`Value` calls): `Set`'s `close(oldInner.c)` never hits a closed channel — a cell that has been
+swapped out has exactly one `Set` call that will close it, and it is open until that call does —
+and `Value`'s `inner.t` after the reload never dereferences nil — once the `CompareAndSwap(nil, _)`
+has failed the pointer is non-nil for good. Without this, the three theorems above would say
+nothing about a `Value` that did not return. -/
+theorem watchable_never_panics {s : WState} (hr : WReach WCfg.gen s) :
+    (∀ (i : Nat) (v : Int), s.setters[i]? ≠ some (v, .panicked)) ∧ (∀ (j : Nat), s.readers[j]? ≠ some .panicked) := by
+  have hgen : WCfg.gen = WCfg.std := by decide
+  rw [hgen] at hr
+  exact ⟨(wsafe_reach hr).set_ok, (wsafe_reach hr).val_ok⟩
+
+/-- non-vacuity: the two steps that could panic do happen — a `Value` whose CAS failed reloads, and
+two `Set`s close the channels they swapped out, out of order -/
+example : ∃ s, WReach WCfg.gen s ∧ s.readers = [.done 1 1, .done 0 0] ∧ s.setters = [(7, .done), (8, .done)] ∧
+    (s.cells.map (·.closed)) = [true, true, false] :=
+  ⟨_, .step (.close 0) (.step (.close 1) (.step (.swap 1) (.step (.reload 0) (.step (.swap 0) (.step (.cas 0) (.step (.cas 1) (.step (.load 1) (.step (.load 0)
+    (.init [7, 8] 2) rfl) rfl) rfl) rfl) rfl) rfl) rfl) rfl) rfl, by decide, by decide, by decide⟩
+
+/-- **Progress of the observer loop**: the observer holds the result `(c, lin)` of a `Value` call
+whose channel is closed; its next `Value` call `j'` has not started yet in `s`. In whatever later
+state `s'` that call has returned, it returned a cell of a strictly later epoch (`lin < lin'`);
+`lin'` is at most the number of `Set`s that have swapped, which is at most the number of `Set` calls
+of the run (`setters.length`, which no step changes). So `setters.length - lin` is a strictly
+decreasing measure of the loop `for { v, ch := w.Value(); …; <-ch }`: it performs at most
+(number of `Set` calls) + 1 iterations. -/
+theorem observer_progress {s s' : WState} {j j' c lin c' lin' : Nat} (hr : WReach WCfg.gen s)
+    (hj : s.readers[j]? = some (.done c lin)) (hclosed : (cellAt s c).closed = true)
+    (hidle : s.readers[j']? = some .idle) (hsteps : WSteps WCfg.gen s s')
+    (hj' : s'.readers[j']? = some (.done c' lin')) :
+    lin < lin' ∧ lin' ≤ s'.hist.length ∧ s'.hist.length ≤ s'.setters.length ∧ s'.setters.length = s.setters.length := by
+  have hlater := (chan_closed_iff_later_set hr hj).1 hclosed
+  have hle := (value_is_latest_set (wreach_steps hr hsteps) hj').1
+  have hgen : WCfg.gen = WCfg.std := by decide
+  rw [hgen] at hr hsteps
+  obtain ⟨_, hlen, hlin⟩ := steps_reader_lin hsteps hidle
+  have := hlin c' lin' hj'
+  exact ⟨by omega, hle, hist_le_setters (wreach_steps hr hsteps), hlen⟩
+
+/-- non-vacuity: observer call 0 returned the first cell (`lin = 1`), `Set(8)` closed its channel,
+the observer's next call 1 returns the second cell (`lin' = 2`) -/
+example : ∃ s s', WReach WCfg.gen s ∧ s.readers[0]? = some (.done 0 1) ∧ (cellAt s 0).closed = true ∧
+    s.readers[1]? = some .idle ∧ WSteps WCfg.gen s s' ∧ s'.readers[1]? = some (.done 1 2) :=
+  ⟨_, _, .step (.close 1) (.step (.swap 1) (.step (.load 0) (.step (.close 0) (.step (.swap 0) (.init [7, 8] 2) rfl) rfl) rfl) rfl) rfl,
+    by decide, by decide, by decide, .step (.load 1) (.refl _) rfl, by decide⟩
+
+/-- **`Value` is never blocked**: in every reachable state, a `Value` call that has not returned
+(not started, or after its first `Load` saw nil, or after its CAS failed) returns within at most two
+steps of its own — no other goroutine has to move — and what it then returns is the most recently
+`Set` value (`lin = ` the number of `Set`s that have swapped) together with a channel that is not
+closed. In particular, once no further `Set` happens, an observer that calls `Value` again (because
+its channel was closed) obtains the final value and parks on an open channel. -/
+theorem value_never_blocked {s : WState} {j : Nat} {pc : ValPc} (hr : WReach WCfg.gen s)
+    (hj : s.readers[j]? = some pc) (hpc : pc = .idle ∨ pc = .sawNil ∨ pc = .casFailed) :
+    ∃ (ls : List WLabel) (s' : WState) (c : Nat), ls.length ≤ 2 ∧ (∀ l ∈ ls, l.ofReader j = true) ∧
+      wrun WCfg.gen s ls = some s' ∧ s'.readers[j]? = some (.done c s.hist.length) ∧
+      (cellAt s' c).val = latest s.hist ∧ (cellAt s' c).closed = false := by
+  have hgen : WCfg.gen = WCfg.std := by decide
+  rw [hgen] at hr ⊢
+  exact value_solo hr hj hpc
+
+/-- non-vacuity: a reachable state with a call in each of the three unfinished program points
+(call 0: CAS failed; call 1: saw nil, a `Set` has swapped since; call 2: not started) -/
+example : ∃ s, WReach WCfg.gen s ∧ s.readers = [.casFailed, .sawNil, .idle] ∧ s.hist = [7] :=
+  ⟨_, .step (.cas 0) (.step (.swap 0) (.step (.load 1) (.step (.load 0) (.init [7] 3) rfl) rfl) rfl) rfl, by decide, by decide⟩
 
 /-! ## Future -/
 
